@@ -232,6 +232,7 @@ def step (d : DSt) (line : String) : DSt × String :=
     | some c, some u, some e => ({ d with store := upsert d.store k none c u e }, "ok")
     | _, _, _ => (d, "bad-op")
   | ["del", k] => ({ d with store := d.store.filter (·.key != k) }, "ok")
+  | ["reload"] => (d, "ok")
   | ["q", idx, ord, fr, lim, ft, tt, mx, filt] =>
     match slotOf idx, fr.toNat?, lim.toNat?, optT ft, optT tt, mx.toNat? with
     | some sl, some fr, some lim, some ft, some tt, some mx =>
